@@ -205,6 +205,21 @@ path_harness!(c01d_empty_file, {
     roundtrip(&data, "e", "E", &cfg);
 });
 
+// an empty file with sector checksums requested: what the builder flags and writes must be readable (the intact
+// archive verifies) - the checksum of zero bytes is still a checksum
+path_harness!(c01d_empty_file_crc, {
+    let data: [u8; 0] = [];
+    unsafe { CODEC_SHRINKS = false; ORIG_N = 0; }
+    let cfg = Cfg { compression: 0, encrypt: kani::any(), fix_key: kani::any(), crc: true, file_pos: 32 };
+    roundtrip(&data, "e", "E", &cfg);
+});
+path_harness!(c01d_one_byte_file_crc, {
+    let data: [u8; 1] = kani::any();
+    unsafe { CODEC_SHRINKS = false; ORIG_N = 0; }
+    let cfg = Cfg { compression: 2, encrypt: false, fix_key: false, crc: true, file_pos: 32 };
+    roundtrip(&data, "e", "E", &cfg);
+});
+
 path_harness!(c01d_absent_name_not_found, {
     let data: [u8; 3] = kani::any();
     unsafe { CODEC_SHRINKS = false; ORIG_N = 0; }
@@ -434,3 +449,45 @@ macro_rules! ms_stored_harness {
 ms_stored_harness!(c02d_ms_stored_size_codec, false, false);
 ms_stored_harness!(c02d_ms_stored_size_enc_codec, true, false);
 ms_stored_harness!(c02d_ms_stored_size_enc_fix_codec, true, true);
+
+// ---------------------------------------------------------------- C02.d reference writer: encrypted files, archive behind a stub
+/// an encrypted single-unit file (8 bytes = 2 cipher words) laid out per the published format - key from the plain
+/// name, optionally adjusted by the block's offset RELATIVE TO THE MPQ HEADER and the file size - inside an archive
+/// that starts `ARCH_OFF` bytes into the containing file (installer stub / user data in front of it)
+fn reference_encrypted(fix_key: bool, arch_off: usize) {
+    let t = spec::crypt_table();
+    let data: [u8; 8] = kani::any();
+    let flags = BlockEntry::FLAG_SINGLE_UNIT | BlockEntry::FLAG_ENCRYPTED | if fix_key { BlockEntry::FLAG_FIX_KEY } else { 0 };
+    let key = spec::file_key(&t, b"a", 32, 8, flags);
+    let mut words = [u32::from_le_bytes([data[0], data[1], data[2], data[3]]), u32::from_le_bytes([data[4], data[5], data[6], data[7]])];
+    spec::encrypt(&t, &mut words, key);
+    let mut img: Vec<u8> = Vec::with_capacity(256);
+    let mut i = 0;
+    while i < arch_off + 32 { img.push(0xEE); i += 1; }
+    put32(&mut img, words[0]);
+    put32(&mut img, words[1]);
+    let mut a = open_reference(&img, 8, 8, flags);
+    a.verif_set_offset(arch_off as u64);
+    let r = a.read_file("A");
+    kani::cover!(r.is_ok());
+    assert!(r.is_ok(), "format-conformant encrypted file is rejected");
+    let got = r.unwrap();
+    let k: usize = kani::any();
+    kani::assume(k < 8);
+    assert!(got.len() == 8 && got[k] == data[k], "format-conformant encrypted file is decrypted with another key than the format's");
+    std::mem::forget((a, got, img));
+}
+macro_rules! ref_enc {
+    ($name:ident, $fix:expr, $off:expr) => {
+        #[kani::proof]
+        #[kani::unwind(260)]
+        #[kani::stub(std::fmt::format, vio::fmt_stub)]
+        #[kani::stub(<std::fs::File as std::io::Read>::read, memfile::mem_read)]
+        #[kani::stub(<std::fs::File as std::io::Read>::read_buf, memfile::mem_read_buf)]
+        #[kani::stub(<std::fs::File as std::io::Seek>::seek, memfile::mem_seek)]
+        fn $name() { reference_encrypted($fix, $off) }
+    };
+}
+ref_enc!(c02d_reference_encrypted, false, 0);
+ref_enc!(c02d_reference_encrypted_fixkey, true, 0);
+ref_enc!(c02d_reference_encrypted_fixkey_embedded, true, 64);
